@@ -36,6 +36,18 @@ pub fn count(lo: usize, common: usize, rare: usize) -> BoxedStrategy<usize> {
     prop_oneof![7 => lo..=common, 1 => lo..=rare].boxed()
 }
 
+/// Lengths where buffer-size and signedness bugs live: powers of two and their neighbours, exact
+/// multiples of 4096, the 16-bit signed boundary, and a log-uniform spread over 1..65535.
+pub fn interesting_len() -> BoxedStrategy<usize> {
+    prop_oneof![
+        4 => (8u32..16, 0usize..3).prop_map(|(e, d)| (1usize << e) + d - 1),
+        2 => (1usize..16).prop_map(|k| k * 4096),
+        1 => prop_oneof![Just(32767usize), Just(32768), Just(32769), Just(65533), Just(65534), Just(65535)],
+        2 => (0u32..16, any::<u16>()).prop_map(|(e, r)| ((1usize << e) | (r as usize & ((1usize << e) - 1))).max(1)),
+    ]
+    .boxed()
+}
+
 pub fn any_i32() -> BoxedStrategy<i32> {
     prop_oneof![
         6 => any::<i32>(),
@@ -60,17 +72,31 @@ pub fn utf8(max: usize) -> BoxedStrategy<Vec<u8>> {
     let max = max.min(65535);
     let small = vec(unicode_char(), 0..14).prop_map(|cs| cs.into_iter().collect::<String>().into_bytes());
     let ascii = vec(prop_oneof![(b'a'..=b'z'), Just(b'-'), (b'0'..=b'9')], 0..20);
-    let bnd = prop_oneof![Just(0usize), Just(1), Just(255), Just(256), Just(65534), Just(65535), 257usize..2000]
-        .prop_flat_map(|n| (Just(n), any::<u8>(), prop_oneof![Just("a"), Just("é"), Just("\u{20ac}"), Just("\u{1f600}")]))
-        .prop_map(move |(n, fill, tail)| {
+    let bnd = (prop_oneof![3 => prop_oneof![Just(0usize), Just(1), Just(255), Just(256), Just(65534), Just(65535)], 2 => 257usize..2000, 4 => interesting_len()], any::<u8>(), prop_oneof![Just("a"), Just("é"), Just("\u{20ac}"), Just("\u{1f600}")], any::<bool>())
+        .prop_map(move |(n, fill, tail, multibyte_throughout)| {
             let n = n.min(max);
-            // n octets exactly: ASCII fill, ending with a multi-byte char when it fits
-            let mut out = Vec::with_capacity(n);
-            let t = tail.as_bytes();
-            let pad = if n >= t.len() { n - t.len() } else { n };
-            out.resize(pad, b'a' + fill % 26);
-            if n >= t.len() {
-                out.extend_from_slice(t);
+            let mut out = Vec::with_capacity(n + 4);
+            if multibyte_throughout {
+                // non-ASCII all the way (a character straddles every possible cut), then trimmed to n octets
+                let unit = format!("{}{tail}", (b'a' + fill % 26) as char);
+                while out.len() < n {
+                    out.extend_from_slice(unit.as_bytes());
+                }
+                out.truncate(n);
+                while std::str::from_utf8(&out).is_err() {
+                    out.pop();
+                }
+                while out.len() < n {
+                    out.push(b'z');
+                }
+            } else {
+                // n octets exactly: ASCII fill, ending with a multi-byte char when it fits
+                let t = tail.as_bytes();
+                let pad = if n >= t.len() { n - t.len() } else { n };
+                out.resize(pad, b'a' + fill % 26);
+                if n >= t.len() {
+                    out.extend_from_slice(t);
+                }
             }
             out
         });
@@ -106,7 +132,7 @@ pub fn octets(max: usize) -> BoxedStrategy<Vec<u8>> {
     ];
     let mixed = vec(piece, 0..6).prop_map(|ps| ps.concat());
     let raw = vec(any::<u8>(), 0..24);
-    let bnd = (prop_oneof![Just(0usize), Just(1), Just(255), Just(256), Just(65534), Just(65535), 257usize..3000], any::<u8>(), any::<bool>()).prop_map(move |(n, f, inv)| {
+    let bnd = (prop_oneof![3 => prop_oneof![Just(0usize), Just(1), Just(255), Just(256), Just(65534), Just(65535)], 2 => 257usize..3000, 4 => interesting_len()], any::<u8>(), any::<bool>()).prop_map(move |(n, f, inv)| {
         let n = n.min(max);
         let mut v = vec![b'a' + f % 26; n];
         if inv && n > 0 {
@@ -279,6 +305,7 @@ pub fn payload() -> BoxedStrategy<Vec<u8>> {
         2 => prop_oneof![Just(vec![0x03u8]), Just(vec![0x01, 0x47, 0x00, 0x01, b'a', 0x00, 0x00, 0x03]), Just(vec![0x37, 0, 0, 0, 0, 3]), Just(vec![0x4b]), Just(vec![0x00, 0x03, 0x03])],
         4 => vec(any::<u8>(), 0..200),
         1 => (1usize..65536, any::<u8>(), any::<u8>()).prop_map(|(n, a, b)| (0..n).map(|i| (i as u8).wrapping_mul(a | 1).wrapping_add(b)).collect()),
+        1 => (interesting_len(), any::<u8>(), any::<u8>()).prop_map(|(n, a, b)| (0..n).map(|i| (i as u8).wrapping_mul(a | 1).wrapping_add(b)).collect()),
     ]
     .boxed()
 }
